@@ -66,7 +66,7 @@ SPEC = TreeSpec(
     prop=ID,
     level="exploration",
     rule=(
-        "one Hypothesis run per entity class; each case = canonical instance from a generated wire tree; "
+        "one Hypothesis run per entity class; each case = canonical instance from a generated wire tree (arrays of 0-3 items and, in 1 of 25 array draws, of 63..1000 items, 16382..16384 for scalars); "
         "oracle: entity_writer output == kv.refcodec.ref_encode (independent implementation of the protocol "
         "guide, KIP-482, KIP-893) byte for byte, first differing offset mapped to a field through the "
         "reference offset map. Non-trivial = null/empty/multi-item array, nested non-default tagged field, "
